@@ -31,7 +31,14 @@ in the `history` field of their `meta.json` and summarised in §11.
 """ % (len(rows), missed) + "\n".join(rows) + "\n\n"
 s = open(V + '/DESIGN.md').read()
 i = s.index('## 11. Deviations from the design')
-j = s.index('### Independent seeded changes') if '### Independent seeded changes' in s else i
-s = s[:j] + txt + s[i:]
+if '### Independent seeded changes' in s:
+    j = s.index('### Independent seeded changes')
+    # the section ends at the next heading of any level
+    import re
+    m = re.search(r'\n##+ ', s[j + 10:])
+    e = j + 10 + m.start() + 1 if m else i
+    s = s[:j] + txt + s[e:]
+else:
+    s = s[:i] + txt + s[i:]
 open(V + '/DESIGN.md', 'w').write(s)
 print(len(rows), "changes,", missed, "first missed")
